@@ -1,6 +1,8 @@
 #!/bin/sh
 # Runs the repository's pinned baseline with the guard OFF and compares with /root/.vp/BASELINE.json stable_pass.
 unset DAVIDHALTER_JEDI_VERIF
+# the pinned baseline was recorded with the pyenv shim python3.13 selectable (test_versions[3.13])
+[ -d /root/.pyenv/versions/3.13.0 ] && export PYENV_VERSION=${PYENV_VERSION:-3.11.7:3.13.0}
 OUT=$(mktemp -d /var/tmp/jedi-baseline.XXXXXX)
 cd /repo && /venv/bin/python -m pytest -ra -q -p no:cacheprovider --timeout=900 --continue-on-collection-errors --junitxml=$OUT/run.junit.xml > $OUT/log.txt 2>&1
 /venv/bin/python - "$OUT/run.junit.xml" <<'PY'
